@@ -5,6 +5,14 @@ VERIF = os.path.dirname(os.path.dirname(os.path.abspath(__file__)))
 
 CLAIMED = {
  # id: (technique, level text, level note, design section)
+ "C11": ("Lean 4 theorems about byte-level models of cvm::memory_stream and of the state-file replacement protocol + differential correspondence (bytes, cursor, stream state; crash outcomes under libc fault injection)",
+         "Proof: 14 theorems — exact round trip for every element size/length and for sequences of writes, no out-of-bounds read for any buffer/cursor/length prefix (incl. byte counts wrapping 2^64), every strict prefix of a serialised object is an error, crash invariant of backup-rename/open/write*/close for every crash point and chunking, plus machine-checked witnesses of the two repaired defects and of the double-crash finding. Tied to the code by byte-exact comparison on generated and systematic corrupted streams, by loading truncated/bit-flipped real state files, and by killing the real process at every file operation.",
+         "Models hand-written (CvModel/MemStream.lean, FileSys.lean). Memory safety of the callers is evidence from sampled runs, not proof. Crash = _exit at interposed libc calls; OS cache/power-loss semantics not modelled. Two defects repaired by fix: commits (43b054d1, f6c58e21); two open findings in known_findings.json (double crash; binary metadynamics block cut at a hill boundary).",
+         "DESIGN.md §4 C11"),
+ "C15": ("Lean 4 theorems (bins over the reals, index arithmetic over Int, histogram counts by induction over histories) + differential correspondence with colvar_grid and the histogram bias",
+         "Proof: 17 theorems — the assigned bin is the unique i with lo+i*w <= x < lo+(i+1)*w, bin centre lies in its bin, index_ok characterisation, address range/injectivity/surjectivity, incr enumerates every address exactly once in order, periodic wrap, sizes from boundaries, and for every history the total count equals the number of eligible in-range samples and each bin holds the samples that address it. Tied to the code on generated grids (edges, outside, 1-3 D) and on real histogram biases driven by injected value histories incl. run boundaries and custom grid blocks.",
+         "Model hand-written (CvModel/Grid.lean). Partial: grid-file round trips (multicolumn/restart/raw) are not modelled yet; gatherVectorColvars cannot be configured at the pinned commit (histogram init enables the scalar-variables requirement unconditionally), so the vector-histogram theorem has no implementation counterpart to compare with. Floating point not modelled.",
+         "DESIGN.md §4 C15"),
  "C18": ("Lean 4 theorems over the reals about a hand-written model of the value metric + differential correspondence with colvarvalue/colvar::dist2/wrap",
          "Proof: 29 theorems (non-negativity, symmetry incl. the half-period tie, zero iff equivalent, period / quaternion-sign invariance, gradient = derivative via HasDerivAt, wrap range/equivalence/idempotence, interpolation end points and manifold) hold for all real inputs of the model; the model is tied to the C++ by running both on generated and edge-case pairs every run.",
          "Model hand-written (CvModel/Value.lean), not extracted; floating point not modelled (theorems over R, comparison at 1e-9 relative); quaternion PI constant instantiated with Real.pi in theorems; periodic variables exercised through distanceZ with period/wrapAround.",
